@@ -13,7 +13,8 @@ def fam_C08(tier, seed):
     full = tier == "thorough"
     ps = []
     # resource indicators: utilisation, number of tasks, cost, idle -- several horizons
-    for H, cost, sel, opt in itertools.product((3, 4, 6, 7), (None, 0, 1, 3, ("lin", 1, 0), ("lin", 2, 1), ("lin", 0, 2)),
+    for H, cost, sel, opt in itertools.product((3, 4, 6, 7), (None, 0, 1, 3, ("lin", 1, 0), ("lin", 2, 1), ("lin", 0, 2),
+                                                                ("poly", 1, 0, 2), ("poly", 2, 0, 1, 3), ("poly", 1, 1), ("poly", 0, 3, 1)),
                                                (False, True), (False, True)):
         b = PB(H, tag="resource-indicators")
         a = b.task("A", "F", dur=2)
@@ -92,6 +93,34 @@ def fam_C08(tier, seed):
             b.require(t, worker=w)
         i = b.ind(icls, name=icls, tasks=[a, d])
         b.obj(ocls, ind=i, kind="maximize" if icls == "MinimumStartTime" else "minimize")
+        ps.append(b.done())
+    # the same indicators on a cumulative worker (tasks counted once, cost spread over the units)
+    for H, cost, size, opt in itertools.product((4, 5), (None, 2, 3), (2, 3), (False, True)):
+        b = PB(H, tag="cumulative-indicators")
+        a = b.task("A", "F", dur=2)
+        c = b.task("B", "V", min=1, max=2, optional=opt)
+        m = b.cumul("M", size, cost=cost)
+        b.require(a, cumul=m)
+        b.require(c, cumul=m)
+        b.ind("IndicatorNumberTasksAssigned", res=res_cumul(m))
+        b.ind("IndicatorResourceCost", ress=[res_cumul(m)])
+        ps.append(b.done())
+    # flow time of one resource inside a window (ObjectiveMinimizeFlowtimeSingleResource)
+    for win, opt, sel in itertools.product((None, (0, 3), (1, 4), (2, 5), (4, 5)), (False, True), (False, True)):
+        b = PB(5, tag="flowtime-single-resource")
+        a = b.task("A", "F", dur=2)
+        c = b.task("B", "F", dur=1, optional=opt)
+        w = b.worker("W")
+        if sel:
+            w2 = b.worker("W2")
+            b.require(a, select=b.select("S", [w, w2]))
+        else:
+            b.require(a, worker=w)
+        b.require(c, worker=w)
+        lo, hi = win or (0, 5)
+        i = b.ind("FlowtimeSingleResource", name=f"FlowTimeSingleResource(W:{lo}:{hi if win else 'horizon'})",
+                  res=res_worker(w), lo=lo, hi=hi, whole=win is None)
+        b.obj("ObjectiveMinimizeFlowtimeSingleResource", ind=i)
         ps.append(b.done())
     # a buffer that is only loaded: its minimum level is the initial one
     for conc in (False, True):
